@@ -5,7 +5,9 @@ SRC = ["hx_fmt.c", "dec_common.c", "gen_stream.c", "vh.c", "ref/refdec.c", "ref/
 RULE = ("case = one valid base file of 60-2200 bytes (quick; <= 16 KiB thorough): .xz from the synthesiser or liblzma's "
         "encoders (all checks, 1-3 Blocks, 1-3 Streams with padding, with/without size fields), .lzma (known/unknown size, "
         "+-end marker), .lz (v0/v1, 1-3 members). For each base file EVERY single-bit flip and EVERY truncation length is "
-        "decoded (plus 300 random multi-byte overwrites/insertions/deletions) by the stream decoder, the threaded decoder "
+        "decoded (plus 300 random multi-byte overwrites/insertions/deletions; a quarter of the probes on a handle that "
+        "decoded the undamaged file before and was re-initialised without lzma_end, a quarter with the input arriving "
+        "in 1-7 byte pieces) by the stream decoder, the threaded decoder "
         "(sample), the auto decoder and the format's own decoder. Oracle: success (STREAM_END with all input offered and "
         "LZMA_FINISH) with output != original is a violation when the file has an integrity check; in .xz any damage outside "
         "the compressed payload (classified through refdec's field map of the original) must be an error; a cut file is "
@@ -38,4 +40,6 @@ def run(ctx):
         ctx.require("base_fmt_" + f, c.get("base_fmt_" + f, 0), 3)
     ctx.require("bit_flips", c.get("bit_flips", 0), 100000)
     ctx.require("truncations", c.get("truncations", 0), 10000)
+    ctx.require("reused_handle_probes", c.get("reused_handle_probes", 0), 10000)
+    ctx.require("sliced_probes", c.get("sliced_probes", 0), 10000)
     ctx.require("damage_detected", c.get("damage_detected", 0), 100000)
